@@ -61,7 +61,10 @@ Offered ==
            [] OTHER -> {}
 Init == /\ seed \in {[name |-> s.name, dup |-> s.dup] : s \in Seeds}
         /\ S = (CHOOSE s \in Seeds : s.name = seed.name).S /\ S0 = S /\ prev = S /\ last = NoStep /\ hist = <<>> /\ n = 0
-Next == n < MaxSteps /\ \E st \in Offered : Do(st)
+\* (simulation evaluates the constraint - and so would print - on EVERY candidate successor: a free session ends with one closing
+\*  step that has a single successor, and is printed there, once)
+Close == Shape = "free" /\ Hist /\ n = MaxSteps /\ n' = n + 1 /\ UNCHANGED <<S, S0, seed, prev, last, hist>>
+Next == (n < MaxSteps /\ \E st \in Offered : Do(st)) \/ Close
 
 \* ---- (1) the laws of a session, on the constructive level ------------------------------------------
 NewTab == S.tabs[Len(S.tabs)]
@@ -99,6 +102,6 @@ EditsBite == ~(n = 3 /\ IsEdit(hist[2]) /\ hist[1].op = "sort" /\ last.src = Len
 
 \* ---- (2) the generator -------------------------------------------------------------------------------
 Emit == PrintT(ToJson([kind |-> "session", seed |-> seed.name, dup |-> seed.dup, init |-> S0, hist |-> hist, model |-> S]))
-ShouldEmit == IF Shape = "free" THEN n = MaxSteps ELSE n > 0 /\ IsCall(last)
+ShouldEmit == IF Shape = "free" THEN n = MaxSteps + 1 ELSE n > 0 /\ n <= MaxSteps /\ IsCall(last)
 GenEmit == (Hist /\ ShouldEmit) => Emit
 =============================================================================
